@@ -112,7 +112,8 @@ def gen(seed, tier):
             out.append(f"cmp@i64 {arr([L], v)} {arr([L], w)}")
             out.append(f"eq@i64 {arr([L], v)} {arr([L], w)}")
     # mismatching shapes: rejected
-    for s1, s2 in [([2, 3], [3, 2]), ([2, 3], [6]), ([2], [3]), ([1, 2], [2]), ([2, 2], [2, 2, 1]), ([4], [2, 2])]:
+    for s1, s2 in [([2, 3], [3, 2]), ([2, 3], [6]), ([2], [3]), ([1, 2], [2]), ([2, 2], [2, 2, 1]), ([4], [2, 2]),
+                   ([3], [2, 3]), ([1, 3], [2, 3]), ([2, 3], [1, 3]), ([2, 1], [1, 3]), ([1], [2, 2]), ([2, 1, 3], [2, 4, 3]), ([2, 2], [1])]:
         for o in range(5):
             out.append(f"op2@i32 z{o} {arr(s1, [1] * prod(s1))} {arr(s2, [1] * prod(s2))}")
             out.append(f"op2a@i32 z{o} {arr(s1, [1] * prod(s1))} {arr(s2, [1] * prod(s2))}")
@@ -121,6 +122,23 @@ def gen(seed, tier):
             out.append(f"op2a@bool z{o} {arr(s1, [1] * prod(s1))} {arr(s2, [1] * prod(s2))}")
         out.append(f"eq@i32 {arr(s1)} {arr(s2)}")
         out.append(f"cmp@i32 {arr(s1)} {arr(s2)}")
+    # values no double represents exactly: any detour through f64 (as the math module's functions take) shows
+    BIG = [2 ** 53 + 1, -(2 ** 53 + 1), 1234567890123456789, 2 ** 62 + 1, -(2 ** 62 + 1), 2 ** 63 - 1, -(2 ** 63 - 1), 9007199254740993]
+    for sh in ([1], [3], [2, 2], [2, 1, 2]):
+        n = prod(sh)
+        e1 = [BIG[(i + len(sh)) % len(BIG)] for i in range(n)]
+        out.append(f"neg@i64 {arr(sh, e1)}")
+        for o, e2 in ((0, [0, 1, -1]), (1, [0, 1, -1]), (2, [1, -1, 1]), (3, [1, -1, 3, 7]), (4, [10, 3, 7, 2 ** 40])):
+            sec = [e2[i % len(e2)] for i in range(n)]
+            sec = [0 if (o in (0, 1) and abs(a) == 2 ** 63 - 1) else b for a, b in zip(e1, sec)]
+            out.append(f"op2@i64 z{o} {arr(sh, e1)} {arr(sh, sec)}")
+            out.append(f"op2a@i64 z{o} {arr(sh, e1)} {arr(sh, sec)}")
+            safe = [v for v in e1 if abs(v) < 2 ** 63 - 1] or [2 ** 53 + 1]
+            out.append(f"op2s@i64 z{o} {arr([len(safe)], safe)} z{1 if o >= 2 else -1}")
+        out.append(f"eq@i64 {arr(sh, e1)} {arr(sh, [v - 1 if v > 0 else v + 1 for v in e1])}")
+        out.append(f"cmp@i64 {arr(sh, e1)} {arr(sh, [v - 1 if v > 0 else v + 1 for v in e1])}")
+    out.append(f"neg@i32 a3:2147483647,-2147483647,16777217")
+    out.append(f"op2@i32 z0 a2:16777217,-16777217 a2:1,-1")
     # integer division by zero panics natively as well
     out.append("op2@i32 z3 a2:1,2 a2:1,0")
     out.append("op2s@i32 z4 a2:1,2 z0")
